@@ -152,7 +152,7 @@ class Flow:
                 return base + ("->" if n.get("isArrow") else ".") + "<anon>"
             if base.endswith("<anon>"):
                 return base[:-6] + n["name"]
-            if base.startswith("&") and n.get("isArrow") and _simple(base[1:]):
+            if base.startswith("&") and n.get("isArrow") and not base.startswith("&("):
                 return base[1:] + "." + n["name"]
             return base + ("->" if n.get("isArrow") else ".") + n["name"]
         if k == "UnaryOperator":
